@@ -109,13 +109,13 @@ type HarnessResult struct {
 
 type World struct {
 	skipIntrinsic *ssa.Function // set while a summary falls back to the real code of its function
-	forkSites map[string]int
-	prog    *ssa.Program
-	pi      *progInfo
-	tt      *TermTable
-	sol     *Solver
-	globals map[*ssa.Global]*Value
-	bounds  Bounds
+	forkSites     map[string]int
+	prog          *ssa.Program
+	pi            *progInfo
+	tt            *TermTable
+	sol           *Solver
+	globals       map[*ssa.Global]*Value
+	bounds        Bounds
 
 	trail   []trailEnt
 	trailOn bool
@@ -142,13 +142,13 @@ type World struct {
 	inInit     bool
 	ufMemo     map[uint32][2]bool
 	findObl    map[string][]string // finding id -> obligation patterns it may explain
-	forced     []ndValue // model replay: nondeterministic values fixed to a vector
+	forced     []ndValue           // model replay: nondeterministic values fixed to a vector
 	forcedPos  int
 	shard      int
 	nshards    int
 	tolerant   int // >0: executing best-effort package initialisation
 	rtErrT     types.Type
-	clock      Value // cell: *Term (int64 ns since epoch)
+	clock      Value            // cell: *Term (int64 ns since epoch)
 	ext        map[string]Value // per-path scratch cells for models (trail-logged)
 	extInit    map[string]Value
 	seed       int64
@@ -983,4 +983,3 @@ func (w *World) zeroOrNil(t types.Type) (v Value) {
 	}()
 	return w.zero(t)
 }
-
